@@ -63,6 +63,11 @@ impl Response<'_> {
     }
 }
 
+/// Verification hook: when set, `Network::acquire` hands out a mock network serving this map.
+#[cfg(all(test, feature = "verif"))]
+pub(crate) static VERIF_MOCK_NETWORK: Mutex<Option<std::collections::HashMap<Url, Bytes>>> =
+    Mutex::new(None);
+
 pub struct Network {
     /// The HTTP client all requests go through
     client: Client,
@@ -131,6 +136,15 @@ impl Network {
     /// There should only ever be one Network instance instantiated. Do it early
     /// and then pass it around by-ref.
     pub fn acquire(cfg: &PartialConfig) -> Option<Self> {
+        #[cfg(all(test, feature = "verif"))]
+        if let Some(mock) = VERIF_MOCK_NETWORK.lock().unwrap().clone() {
+            if cfg.cli.frozen {
+                return None;
+            }
+            let mut network = Network::new_mock();
+            network.mock_network = Some(mock);
+            return Some(network);
+        }
         if cfg.cli.frozen {
             None
         } else {
